@@ -2,10 +2,10 @@
 from props import _ikcommon as K
 from props import _finish as F
 ID = "C06"
-COQ_TARGETS = ["Exec/Kin.vo", "Exec/Finish.vo", "Gen/Inverse.vo", "Proofs/Complete5.vo", "Properties/C06.vo"]
+COQ_TARGETS = ["Exec/Kin.vo", "Exec/Finish.vo", "Gen/Inverse.vo", "Proofs/Complete5.vo", "Proofs/Axis5.vo", "Properties/C06.vo"]
 THEOREMS = ["C06_inverse_5dof_j6", "C06_continuing_5dof_j6", "C06_dof5_dispatch", "C06_dof5_inverse_j6_zero",
             "C06_concrete_inverse_5dof", "C06_concrete_continuing_5dof", "C06_twin5_in_table", "C06_fk_twin5",
-            "C06_table5_is_table6", "C06_inverse_5dof_complete"]
+            "C06_table5_is_table6", "C06_inverse_5dof_complete", "C06_kernel5_axis", "C06_inverse_5dof_axis", "C06_continuing_5dof_axis"]
 LEVEL_TEXT = ("Coq theorems: every answer of the 5-DOF entry points carries exactly the caller's J6 (argument / previous J6 / 0 for plain "
               "inverse of a 5-DOF robot) and a robot declared 5-DOF dispatches all four entry points to them; the same end to end for the "
               "concrete kernel (finishing glue over the branch table GENERATED from inverse_intern_5_dof): every answer passed the position "
@@ -18,7 +18,7 @@ RULE = ("KIN records for entries 2,3 and for dof-5 robots; oracle cases: dof 5 a
         "kinds x constraints; checks J6 bit-exact, tool point (1e-6) and axis, originating J1..J5 present when non-singular")
 EXPLANATION = "see LEVEL_NOTE"
 ASSUMPTIONS = K.ASSUME
-PARTIAL = ["axis accuracy of the f64 5-DOF kernel (the code re-checks the position only): oracle search only"]
+PARTIAL = ["over R every 5-DOF answer has exactly the requested tool axis (C06_*_axis); that the f64 kernel keeps it within the stated accuracy is decided by the oracle search"]
 _corr, search = K.make("C06", lambda r: r["fn"] == "entry" and (r["entry"] >= 2 or r["robot"]["params"]["dof"] == 5))
 
 
